@@ -82,6 +82,16 @@ NamesIdentifySlots == \A i \in DOMAIN Constructs : LET s == Constructs[i].slots 
 
 Case(p) == [construct |-> Constructs[p[1]].id, context |-> Contexts[p[2]].id, text |-> Text(Constructs[p[1]], Contexts[p[2]]),
             slots |-> [k \in DOMAIN Roles(p) |-> [name |-> Roles(p)[k][1], role |-> Roles(p)[k][2]]]]
+\* ---- the kind of a numeric literal is what Python reads it as, however it is spelled: an exponent makes a float with or
+\* without a dot, a digit separator or a base prefix changes nothing about an integer
+NumberSpellings == << [text |-> "1", kind |-> "int"], [text |-> "0", kind |-> "int"], [text |-> "1_000", kind |-> "int"], [text |-> "0x1F", kind |-> "int"],
+                      [text |-> "0XaB", kind |-> "int"], [text |-> "0x_ff", kind |-> "int"],
+                      [text |-> "1.5", kind |-> "float"], [text |-> "1.", kind |-> "float"], [text |-> ".5", kind |-> "float"], [text |-> "1e5", kind |-> "float"],
+                      [text |-> "1E-9", kind |-> "float"], [text |-> "3e+8", kind |-> "float"], [text |-> "2.5e-3", kind |-> "float"], [text |-> "1_0.5", kind |-> "float"],
+                      [text |-> "6.02e23", kind |-> "float"], [text |-> "0e0", kind |-> "float"] >>
+NumberPlaces == << "x = #\n", "def f(a: float = #) -> None:\n\tpass\n", "y = g(#, k=#)\n", "z = [#, -#]\n", "w = # + n\n" >>
+ASSUME \A i \in DOMAIN NumberSpellings, j \in DOMAIN NumberPlaces :
+   PrintT("NUMBER " \o ToJson([text |-> NumberSpellings[i].text, kind |-> NumberSpellings[i].kind, place |-> NumberPlaces[j]]))
 ASSUME RoleBySlotOnly
 ASSUME NamesIdentifySlots
 ASSUME \A p \in Programs : PrintT("ROLE " \o ToJson(Case(p)))
